@@ -455,12 +455,27 @@ class Run:
                 if not ok:
                     outcome = "stale_source"
                 else:
-                    r = self.traced(lambda: _evaluate(a, of, be, kw), targets)
-                    kernel_ran = True
-                    new_lid = m.new_logical(r.cffi_tensor, f"eval:{o['kernel']}")
-                    self.well_formed(r, at, of, od)
-                    self.bind(o["dst"], r, new_lid)
-                    del r
+                    used_output = any(
+                        "name" in o["srcs"][p] and m.logical[m.names[o["srcs"][p]["name"]][1]]["blocks"]
+                        for p, _, _ in params)
+                    try:
+                        r = self.traced(lambda: _evaluate(a, of, be, kw), targets)
+                    except Exception as e:
+                        # C13 says nothing about exceptions; C02 promises that a kernel output is
+                        # usable as an input.  A failure on fresh inputs only is not ours to judge.
+                        if used_output:
+                            self.viol(("C02",), "kernel_output_not_usable_as_input", at,
+                                      type(e).__name__, str(e)[:200])
+                        else:
+                            self.probe("evaluate_raised_on_fresh_inputs")
+                        outcome = "raised:" + type(e).__name__
+                        del e
+                    else:
+                        kernel_ran = True
+                        new_lid = m.new_logical(r.cffi_tensor, f"eval:{o['kernel']}")
+                        self.well_formed(r, at, of, od)
+                        self.bind(o["dst"], r, new_lid)
+                        del r
                 del kw
             elif kind == "op":
                 a = self.tensor_of(o["a"])
@@ -582,7 +597,7 @@ class Run:
                 if how == "dim" and len(d0) >= 1:
                     kw[p0] = self.fresh({"dims": [d0[0] + 1] + list(d0[1:]), "fmt": f0, "entries": []})
                 elif how == "order":
-                    kw[p0] = self.fresh({"dims": list(d0) + [2], "fmt": f0 + "d", "entries": []})
+                    kw[p0] = self.fresh({"dims": list(d0) + [2], "fmt": "d" * (len(d0) + 1), "entries": []})
                 elif how == "type":
                     kw[p0] = 3.0
                 elif how == "missing":
@@ -615,14 +630,12 @@ class Run:
                 del ent
             elif kind == "gc":
                 gc.collect()
-        except Exception as e:
-            import traceback
-
-            # no operation of a history is expected to raise on the unchanged tree
-            self.viol(("C13", "C02"), "operation_raised", at, type(e).__name__, str(e)[:300],
-                      traceback.format_exc()[-600:])
-            outcome = "raised:" + type(e).__name__
-            del e
+        except Exception:
+            # every call into tensora above has its own handler: an exception that reaches this
+            # point was raised by the harness itself and must never be reported as a violation
+            sys.settrace(None)
+            heap.current_call = "harness"
+            raise
         sys.settrace(None)
         heap.current_call = "harness"
         # struct alias that outlives its Tensor?
